@@ -57,7 +57,8 @@ def build_instance(case, oracle, order, probe="interior", opts=None, with_T=True
     fd = fields.make_fd(N=N, order=order, h=h, boundary=boundary)
     idx = {"interior": (order, order, order), "corner": (0, 0, 0), "face": (0, order, order), "edge": (0, N - 1, order)}[probe]
     F = ST.Fields(case, fd, idx)
-    kw = dict(verbose=False, Lambda=float(case["lam"]))
+    # keep everything cached: an entry corrupted or mis-branched by an earlier request must stay visible to later ones
+    kw = dict(verbose=False, Lambda=float(case["lam"]), clear_cache_every_nbr_calc=10 ** 6)
     kw.update({k: v for k, v in (opts or {}).items() if not k.startswith("_")})
     rel = core.AurelCore(fd, **kw)
     for k, v in F.inputs().items():
@@ -65,6 +66,12 @@ def build_instance(case, oracle, order, probe="interior", opts=None, with_T=True
     if with_T and oracle is not None:
         kt = as_array(oracle["kappaT"], "kappaT")
         rel.data["Tdown4"] = (kt / KAPPA)[(...,) + (None,) * 3] * np.ones(fd.x.shape)
+    if (opts or {}).get("_moving_fluid"):
+        v = np.array([0.25, -0.15, 0.1])[:, None, None, None] * np.ones(fd.x.shape)
+        v2 = np.einsum("i...,j...,ij...->...", v, v, rel.data["gammadown3"])
+        rel.data["velx"], rel.data["vely"], rel.data["velz"] = v[0], v[1], v[2]
+        rel.data["w_lorentz"] = 1.0 / np.sqrt(1.0 - v2)
+        rel.data["rho0"] = np.ones(fd.x.shape)
     rel.freeze_data()
     return rel, idx, F
 
